@@ -60,6 +60,8 @@ fn dispatch(id: &str, tier: Option<&str>) {
 }
 
 fn main() {
+    // logging is part of the environment: with a subscriber installed the arguments of the code's log lines are evaluated
+    mc_core::logging::install();
     // a panic of the harness itself is a machinery failure (exit 2, no verdict), never a verdict about the property
     let id = std::env::args().nth(1).unwrap_or_default();
     if let Err(p) = std::panic::catch_unwind(real_main) {
